@@ -424,6 +424,7 @@ struct Program {
             else if (r < 930) { note("yield"); usleep((useconds_t) rng.below(150)); }
             else {
                 note("getters");
+                if (rng.chance(500)) pool->update();   // nothing to reap: the workers of this pool never expire
                 int tc = pool->getThreadCount();
                 if (tc > maxThreads) fail("C08", "worker-count", "getters", "getThreadCount() exceeds the maximum");
             }
